@@ -1,7 +1,7 @@
 (** Facts about the script layer (Model/Lua.v, Model/RunLua.v): UTF-8 / lossy decoding,
     the two value conversions and the exact domain on which they round-trip, call aborts /
     pcall continues / effects persist, one script = one step of the server, EVALSHA =
-    EVAL of the cached source (in database 0 only), KEYS / ARGV bytes, the sandbox tables. *)
+    EVAL of the cached source, KEYS / ARGV bytes, the sandbox tables. *)
 From Ferrous Require Import Base.Bytes Generated Model.Resp Model.Types Model.Glob Model.Utf8 Model.Strings
   Model.Lists Model.ZSets Model.Streams Model.Scan Model.Exec Model.Lua Model.Server Model.Conn Model.RunBase
   Model.RunSrv Model.RunLua Proofs.BytesFacts Proofs.RespFacts Proofs.ExecFacts.
@@ -291,15 +291,15 @@ Proof.
 Qed.
 
 (** ---- EVALSHA ---- *)
-(** with database 0 selected, EVALSHA of a cached script is EVAL of its source *)
-Theorem evalsha_eq_eval t s c ca nm sha nk rest src :
+(** EVALSHA of a cached script is EVAL of its source, in the database the connection has selected *)
+Theorem evalsha_eq_eval t s c dbi ca nm sha nk rest src :
   upper nm = bs "EVALSHA" -> utf8_valid sha = true -> alookup sha ca = Some src ->
-  let r1 := h_evalsha t s c 0 ca (FBulk nm :: FBulk sha :: nk :: rest) in
-  let r2 := normal_command t s c 0 (FBulk (bs "EVAL") :: FBulk src :: nk :: rest) None in
+  let r1 := h_evalsha t s c dbi ca (FBulk nm :: FBulk sha :: nk :: rest) in
+  let r2 := normal_command t s c dbi (FBulk (bs "EVAL") :: FBulk src :: nk :: rest) None in
   fst r1 = fst r2 /\ s_dbs (snd r1) = s_dbs (snd r2) /\ s_conns (snd r1) = s_conns (snd r2).
 Proof.
   intros Hn Hv Hc. cbv zeta. unfold h_evalsha, str_arg. rewrite Hv, Hc. unfold evalsha_db.
-  destruct (normal_command t s c 0 _ None) as [r s1]. repeat split.
+  destruct (normal_command t s c dbi _ None) as [r s1]. repeat split.
 Qed.
 
 (** ---- a script that calls one catalogue command = the direct command, converted ---- *)
